@@ -3172,3 +3172,94 @@ Proof.
   unfold graph_roundtrip, iterate_graph, iterate_tree. rewrite Htrav. simpl andb. cbv iota.
   apply build_graph_eff; assumption.
 Qed.
+
+(* ------------------------------------------------------------------------- *)
+(* Part 6: the validator's single marker slot                                  *)
+
+Definition top_ok (stk : list vframe) : Prop := match stk with VMarker :: _ => False | _ => True end.
+
+Lemma vrun_app s es1 es2 :
+  vrun s (es1 ++ es2) = match vrun s es1 with Some s' => vrun s' es2 | None => None end.
+Proof.
+  revert s. induction es1 as [|e es1 IH]; intro s; simpl; [reflexivity|].
+  destruct (vstep s e); [apply IH | reflexivity].
+Qed.
+
+Lemma v_object_top s : top_ok (v_stack s) -> v_object s = Some s.
+Proof. unfold v_object. destruct (v_stack s) as [|[|] r]; simpl; intro H; try reflexivity. contradiction. Qed.
+
+Lemma vrun_labels l stk slot marked fwd rest :
+  top_ok stk -> vrun (mkV stk slot marked fwd) (label_events l ++ rest) = vrun (mkV stk slot marked fwd) rest.
+Proof.
+  intro H. destruct l; simpl; try reflexivity; rewrite v_object_top by exact H; reflexivity.
+Qed.
+
+Lemma vrun_kind_begin k stk slot marked fwd rest :
+  vrun (mkV stk slot marked fwd) (kind_events k ++ rest) = vrun (mkV (VContainer :: stk) slot marked fwd) rest.
+Proof.
+  destruct k; simpl; reflexivity.
+Qed.
+
+Lemma tm_marks_node a m k kids :
+  tm_marks (TNode a m k kids) = 0 -> m = None /\ Forall (fun lt : label * tm => tm_marks (snd lt) = 0) kids.
+Proof.
+  cbn [tm_marks]. intro H.
+  assert (Hm : m = None) by (destruct m; [lia | reflexivity]). split; [exact Hm|]. subst m.
+  induction kids as [|lt r IH]; [constructor|]. simpl in H. constructor; [lia | apply IH; simpl; lia].
+Qed.
+
+Lemma bmem_bremove x y l : bmem x (bremove y l) = bmem x l && negb (bytes_eqb y x).
+Proof.
+  unfold bmem, bremove. induction l as [|z l IH]; simpl; [reflexivity|].
+  destruct (bytes_eqb y z) eqn:E; simpl.
+  - rewrite IH. apply bytes_eqb_eq in E. subst z. destruct (bytes_eqb x y) eqn:E2.
+    + apply bytes_eqb_eq in E2. subst. rewrite bytes_eqb_refl. simpl. rewrite andb_false_r. reflexivity.
+    + simpl. reflexivity.
+  - rewrite IH. destruct (bytes_eqb x z) eqn:E2; simpl; [|reflexivity].
+    apply bytes_eqb_eq in E2. subst z. rewrite E. reflexivity.
+Qed.
+Lemma In_bremove x y l : In x (bremove y l) -> In x l /\ x <> y.
+Proof.
+  unfold bremove. intro H. apply filter_In in H. destruct H as [H1 H2]. split; [exact H1|].
+  intros ->. rewrite bytes_eqb_refl in H2. discriminate.
+Qed.
+
+(* a tree without markers: stack, slot and marked set come back unchanged *)
+Lemma vrun_nomark t : forall stk slot marked fwd rest,
+  tm_marks t = 0 -> is_omit t = false -> top_ok stk ->
+  exists fwd', vrun (mkV stk slot marked fwd) (flatten t ++ rest) = vrun (mkV stk slot marked fwd') rest /\
+    forall id, In id fwd' -> In id fwd \/ (In id (tm_rids t) /\ bmem id marked = false).
+Proof.
+  induction t as [| |id|a m k kids IHk] using tm_ind'; intros stk slot marked fwd rest Hm Ho Ht.
+  - discriminate.
+  - exists fwd. simpl. rewrite v_object_top by exact Ht. auto.
+  - simpl. destruct stk as [|[|] r]; try contradiction; simpl.
+    + destruct (bmem (dec_bytes id) marked) eqn:E; eexists; (split; [reflexivity|]).
+      * auto.
+      * intros id0 [<-|Hin]; [right; split; [left; reflexivity | exact E] | left; apply In_bremove in Hin; tauto].
+    + destruct (bmem (dec_bytes id) marked) eqn:E; eexists; (split; [reflexivity|]).
+      * auto.
+      * intros id0 [<-|Hin]; [right; split; [left; reflexivity | exact E] | left; apply In_bremove in Hin; tauto].
+  - destruct (tm_marks_node _ _ _ _ Hm) as [-> Hk].
+    change (flatten (TNode a None k kids)) with (kind_events k ++ kids_events kids ++ [EEnd]).
+    rewrite <- !app_assoc. rewrite vrun_kind_begin.
+    assert (Hkids : forall fwd0, exists fwd',
+               vrun (mkV (VContainer :: stk) slot marked fwd0) (kids_events kids ++ EEnd :: rest) =
+               vrun (mkV (VContainer :: stk) slot marked fwd') (EEnd :: rest) /\
+               forall id, In id fwd' -> In id fwd0 \/ (In id (flat_map (fun lt : label * tm => tm_rids (snd lt)) kids) /\ bmem id marked = false)).
+    { clear Hm Ho. induction kids as [|[l t] ks IHl]; intro fwd0.
+      - exists fwd0. simpl. auto.
+      - inversion IHk as [|x xs Hx Hxs]; subst. inversion Hk as [|y ys Hy Hys]; subst. simpl in Hx, Hy.
+        unfold kids_events. simpl. fold (kids_events ks). destruct (is_omit t) eqn:Eo.
+        + destruct (IHl Hxs Hys fwd0) as [fwd' [E Hf]]. exists fwd'. simpl. split; [exact E|].
+          intros id Hin. destruct (Hf id Hin) as [?|[? ?]]; auto. right. split; [apply in_or_app; right; assumption | assumption].
+        + rewrite <- !app_assoc. rewrite vrun_labels by exact I.
+          destruct (Hx (VContainer :: stk) slot marked fwd0 (kids_events ks ++ EEnd :: rest) Hy eq_refl I) as [fwd1 [E1 Hf1]].
+          rewrite E1. destruct (IHl Hxs Hys fwd1) as [fwd' [E Hf]]. exists fwd'. split; [exact E|].
+          intros id Hin. destruct (Hf id Hin) as [Ha|[Ha Hb]].
+          * destruct (Hf1 id Ha) as [?|[? ?]]; auto. right. split; [apply in_or_app; left; assumption | assumption].
+          * right. split; [apply in_or_app; right; assumption | assumption]. }
+    destruct (Hkids fwd) as [fwd' [E Hf]]. simpl ([EEnd] ++ rest). rewrite E.
+    exists fwd'. split; [|exact Hf].
+    simpl. rewrite v_object_top by exact Ht. reflexivity.
+Qed.
